@@ -18,17 +18,19 @@ def showErr : Err → String
   | .reid n => s!"reid:{showHex n}"
   | .redecl n => s!"redecl:{showHex n}"
   | .dupName n => s!"dupname:{showHex n}"
+  | .spaceMix n => s!"spacemix:{showHex n}"
 
 def showResult (r : Result) : String :=
   if r.errs.isEmpty then "ok " ++ ",".intercalate (r.syms.map fun s => showHex s.id)
   else "err " ++ ";".intercalate (r.errs.map showErr)
 
-/-- `name:id,name:id,…` (hex, `-` = empty) -/
-def parseToks (s : String) : Option (List (Str × Str)) :=
+/-- `name:id[:s],…` (hex, `-` = empty; `:s` = the lexeme has the `(space)` attribute) -/
+def parseToks (s : String) : Option (List (Str × Str × Bool)) :=
   if s == "_" then some [] else
   (s.splitOn ",").mapM fun t =>
     match t.splitOn ":" with
-    | [n, i] => do pure ((← parseHex n), (← parseHex i))
+    | [n, i] => do pure ((← parseHex n), (← parseHex i), false)
+    | [n, i, sp] => do pure ((← parseHex n), (← parseHex i), sp == "s")
     | _ => none
 
 def parseNames (s : String) : Option (List Str) :=
@@ -39,9 +41,10 @@ def ascii (n : Str) : String :=
   String.ofList (n.map fun c => if 32 ≤ c ∧ c < 127 then Char.ofNat c else '?')
 
 /-- the declarations of a `gram` case as grammar-like text -/
-def renderDecls (toks : List (Str × Str)) (nts : List Str) : String :=
+def renderDecls (toks : List (Str × Str × Bool)) (nts : List Str) : String :=
   "lexemes: " ++ ", ".intercalate (toks.map fun t =>
-      if t.2.isEmpty then ascii t.1 else s!"{ascii t.1} ({ascii t.2})") ++
+      (if t.2.1.isEmpty then ascii t.1 else s!"{ascii t.1} ({ascii t.2.1})") ++
+        (if t.2.2 then " (space)" else "")) ++
     "; nonterminals: " ++ ", ".intercalate (nts.map ascii)
 
 /-- first ID occurring twice -/
@@ -52,7 +55,7 @@ def firstDup : List Str → Option Str
 /-- Judged on the implementation's own IDs (the observable `grammar.Syms[].ID`): every symbol gets a
 valid identifier in the requested style (terminals upper-case, nonterminals not starting with a
 lower-case letter), distinct symbols get distinct IDs. -/
-def judgeIds (kind ids : String) (toks : List (Str × Str)) (nts : List Str) (flex : Bool)
+def judgeIds (kind ids : String) (toks : List (Str × Str × Bool)) (nts : List Str) (flex : Bool)
     (extra : String) : Option String := do
   if kind != "ok" then some "holds" else
   let goIds ← parseNames ids
